@@ -501,6 +501,21 @@ def run(world, rep, tier, only=None):
         rep.ob("C09.z", site(pe, "no extent is rewritten on the way to the insertion of the right half#%d" % i), not before,
                "ext2fs_extent_replace() calls that dominate ext2fs_extent_insert() within one turn of the loop: %s" % [r_.line for r_ in before])
 
+    # ------------------------------------------------------------------ C09.aa a failed mapping gives back only what it allocated
+    # extent_bmap() maps a new block either into a cluster the file already owns (bigalloc: implied allocation) or into
+    # a freshly allocated one.  When recording the mapping fails, only the fresh one is given back: releasing an implied
+    # cluster frees blocks the file's other data lives in, and the next allocation hands them out again.
+    ebm = prog.fn("extent_bmap", "lib/ext2fs/bmap.c")
+    backs = [n for n in calls_to(ebm, "ext2fs_block_alloc_stats2") if (T.const(arg(n, 2)) or 0) < 0]
+    rep.floor("C09.aa roll-back of an allocation in extent_bmap", len(backs), 1)
+    for i, n in enumerate(backs):
+        own = any(t is True and T.path(a_) is not None and any(m_.ev.get("o") in ("++", "+=") and T.path(m_.ev["lhs"]) == T.path(a_) and
+                                                               ebm.dominated_by(m_, calls_to(ebm, "ext2fs_alloc_block3", "ext2fs_alloc_block2", "ext2fs_new_block2"))
+                                                               for m_ in ebm.events("S"))
+                  for t, a_ in control_lits(ebm, n))
+        rep.ob("C09.aa", site(ebm, "only a block allocated by this call is released when set_bmap fails#%d" % i), own,
+               "`%s` lies behind a test of a counter that is raised only behind the allocator" % n.text()[:40])
+
 
 def copy_in_rules(prog, rep, RULE):
     """every copy into the handle's block buffer is paired with the dirty mark and preceded by a load, and the load
